@@ -1400,7 +1400,10 @@ impl Writer {
       let acked_by_all_readers = self
         .readers
         .values()
-        .filter(|rp| rp.qos().is_reliable())
+        // Proxies of built-in readers carry no QoS, but they do acknowledge.
+        .filter(|rp| {
+          rp.qos().is_reliable() || rp.acked_up_to_before() > SequenceNumber::zero()
+        })
         .map(RtpsReaderProxy::acked_up_to_before)
         .min()
         .map_or(all_written, |acked| min(acked, all_written));
